@@ -65,6 +65,7 @@ pub struct ConcRun {
     pub survivor_steps: u64,
     pub fs0: kismet_vfs::simfs::SimFs,
     pub main_spec: HandleSpec,
+    pub initial_reader: Vec<Option<u32>>,
 }
 
 fn draw_op(t: &mut Tape, names: &[&'static str], tag: u32, is_stack: bool) -> Op {
@@ -142,6 +143,20 @@ pub fn run_conc(tape: &mut Tape, cfg: &ConcCfg, detail: bool) -> ConcRun {
                 let m = fs.now - 4_000_000_000_000;
                 fs.plant_file(&format!("{}/{}", phys, key.name), &make_value(&key.name, 9000 + i as u32, 5), 0o444, m - 120_000_000_000, m);
                 initial[i] = Some(9000 + i as u32);
+            }
+        }
+    }
+    // the read-only level (if any) starts with some of the keys as well, so
+    // that secondary hits, promotions and replacements happen from step one
+    let mut initial_reader: Vec<Option<u32>> = vec![None; nkeys];
+    if cfg.preexisting && has_reader && !missing {
+        for (i, key) in keys.iter().enumerate() {
+            if tape.draw(2) == 0 {
+                let phys = if reader_sharded { format!("{}/{}", rroot, shard_dir_name(ref_shards(key.hash, key.sec, nshards).0)) } else { rroot.clone() };
+                fs.mkdir_all(&phys);
+                let m = fs.now - 5_000_000_000_000;
+                fs.plant_file(&format!("{}/{}", phys, key.name), &make_value(&key.name, 9500 + i as u32, 5), 0o444, m - 120_000_000_000, m);
+                initial_reader[i] = Some(9500 + i as u32);
             }
         }
     }
@@ -403,7 +418,7 @@ pub fn run_conc(tape: &mut Tape, cfg: &ConcCfg, detail: bool) -> ConcRun {
     }
     let _ = detail;
     let adversary_unlinks = *adv_count.lock().unwrap();
-    ConcRun { results, trace, w, keys, hspecs, programs, part_proc, desc, blocked: !ok, aborted, frozen_at, crashed_proc, sig, adversary_unlinks, initial, steps, sim_ns, switches, faults, survivor_steps, fs0, main_spec }
+    ConcRun { results, trace, w, keys, hspecs, programs, part_proc, desc, blocked: !ok, aborted, frozen_at, crashed_proc, sig, adversary_unlinks, initial, steps, sim_ns, switches, faults, survivor_steps, fs0, main_spec, initial_reader }
 }
 
 pub fn describe(run: &ConcRun, trace_lines: usize) -> Vec<String> {
